@@ -2,6 +2,7 @@ CONSTANTS
   Nodes = {0}
   AP = {"p"}
   MaxObjs = 1
+  Mutators = FALSE
   Depth = 1
 SPECIFICATION TSpec
 INVARIANT Done
